@@ -160,6 +160,7 @@ type vfWorld struct {
 
 	subs          map[int]*vfSubscriber
 	detectBlocked bool
+	aborted       bool
 	rec           *eventrecorder.EventRecorder
 	recFile       string
 	recGen        int
